@@ -28,11 +28,13 @@ func (t *Teamserver) Died(Agent *agent.Agent) {
 }
 
 func (t *Teamserver) UnlinkFromAll(Agent *agent.Agent) {
-	// remove all links from agent
-	for i := range Agent.Pivots.Links {
-		t.LinkRemove(Agent, Agent.Pivots.Links[i], false)
-		Agent.Pivots.Links = append(Agent.Pivots.Links[:i], Agent.Pivots.Links[i+1:]...)
+	// remove all links from agent (iterate over a copy: LinkRemove must not see a list that
+	// shrinks under the loop) and detach every child from it
+	var Links = append([]*agent.Agent(nil), Agent.Pivots.Links...)
+	for _, Link := range Links {
+		t.LinkRemove(Agent, Link, false)
 	}
+	Agent.Pivots.Links = nil
 
 	// remove agent from parent's link
 	for _, ParentAgent := range t.Agents.Agents {
@@ -48,6 +50,7 @@ func (t *Teamserver) UnlinkFromAll(Agent *agent.Agent) {
 			}
 		}
 	}
+	Agent.Pivots.Parent = nil
 }
 
 func (t *Teamserver) ParentOf(Agent *agent.Agent) (int, error) {
@@ -81,6 +84,11 @@ func (t *Teamserver) LinkRemove(ParentAgent *agent.Agent, LinkAgent *agent.Agent
 
 	LinkAgent.Active = false
 	LinkAgent.Reason = "Disconnected"
+
+	// a removed link is no longer the agent's way up
+	if LinkAgent.Pivots.Parent == ParentAgent {
+		LinkAgent.Pivots.Parent = nil
+	}
 
 	if UpdateLinks {
 		for i := range ParentAgent.Pivots.Links {
